@@ -87,7 +87,7 @@ CHECKS = {
           "Lean 4 proof (homomorphism for all expression programs) + exact replay correspondence", "§6 C15, §10.2"),
  "C16": P("Lean: harmonic-oscillator symbols in the scaled number basis for every size / frequency parameter / origin: two-operator products, CCR, x^2, p^2, x p, p x in the written order. Real "
           "BasisSHO.op_mat replayed against the model with the similarity scaling. Defining relations of every basis class, sine-DVR quadrature, builders vs independent dense Hamiltonians: dense oracle.",
-          LEAN_TB + "General powers, DVR, sine-DVR integrals, spin/electron tables, builders, Quantity: oracle only (partial). Open finding: BasisMultiElectronVac 'a a^dagger'.",
+          LEAN_TB + "Spin-1/2 and multi-electron tables: Lean model (Model/Spin, Props/C16Spin) replayed exactly. General powers, DVR, sine-DVR integrals, builders, Quantity: oracle only (partial). Open finding: BasisMultiElectronVac 'a a^dagger'.",
           "Lean 4 proof (SHO algebra over Gaussian rationals) + scaled replay", "§6 C16, §10.2"),
  "C17": P("Lean: simplify_op is exact on every word over {sigma_z, sigma_+, sigma_-} of any length; the Jordan-Wigner swap rule is the fermionic swap conjugation on the whole admitted alphabet; the Jordan-Wigner ladder operators satisfy the canonical anticommutation relations for every chain length (Props/C17CAR). Real "
           "simplify_op, table_row_swapped_jw, generate_ladder_operator and BasisHalfSpin matrices replayed. qc_model vs independent fermionic matrix, hermiticity, number conservation, OFS swap sequences: dense oracle.",
